@@ -1,7 +1,7 @@
 //! Development-time tool (not used by any registered check): dumps generated cases with the reference model's verdict
 //! as JSON lines, for cross-validation against V8 (oracle/crosscheck_v8.js).
 //! usage: esdev match|soup|class N SEED
-use rvh::drv::Tier;
+use rvh::drv::{Case, Tier};
 use rvh::esref;
 use rvh::pat::*;
 use rvh::props::common::*;
@@ -29,6 +29,50 @@ fn main() {
         for name in ["Basic_Emoji", "Emoji_Keycap_Sequence", "RGI_Emoji_Flag_Sequence", "RGI_Emoji_Modifier_Sequence", "RGI_Emoji_Tag_Sequence", "RGI_Emoji_ZWJ_Sequence", "RGI_Emoji"] {
             if let Some(v) = regress::verif::string_property_strings(name) {
                 println!("{}", json!({"name": name, "strings": v}));
+            }
+        }
+        return;
+    }
+    if mode == "triples" || mode == "brackets" {
+        // the bounded-exhaustive syntax slices of C08 / C12 as acceptance questions for V8 (development time)
+        let cases = if mode == "triples" { rvh::props::c08::core_cases(Tier::Quick) } else { rvh::props::c12::bracket_cases() };
+        for c in cases {
+            let fl = Fl::parse(&c.flags);
+            let pu = match units(&c.pat) {
+                Some(u) => u,
+                None => continue,
+            };
+            let r = esref::accepts(&c.pat, fl);
+            println!("{}", json!({"k": "soup", "p": pu, "f": fl.text(), "ok": r.is_ok(), "err": r.err().unwrap_or_default()}));
+        }
+        return;
+    }
+    if mode == "bracketmatch" || mode == "flagslice" {
+        // membership / match questions of the bounded-exhaustive slices, for V8 (development time)
+        let cases: Vec<Case> = if mode == "bracketmatch" { rvh::props::c12::bracket_cases() } else { rvh::props::c01::flag_slice().iter().step_by(n.max(1)).cloned().collect() };
+        let hays3: Vec<String> = rvh::props::common::all_strings(&[0x61, 0x41, 0x0A], 3);
+        for c in cases {
+            let fl = Fl::parse(&c.flags);
+            let pu = match units(&c.pat) {
+                Some(u) => u,
+                None => continue,
+            };
+            let r = match esref::compile(&c.pat, fl) {
+                Ok(r) => r,
+                Err(_) => continue,
+            };
+            let probes: Vec<String> = if mode == "bracketmatch" { c.x["probes"].as_array().map(|a| a.iter().filter_map(|v| v.as_str().map(|s| s.to_string())).collect()).unwrap_or_default() } else { hays3.clone() };
+            for h in probes {
+                if fl.mode == Mode::Legacy && h.chars().any(|ch| ch as u32 > 0xFFFF) {
+                    continue;
+                }
+                let to16 = |b: usize| -> usize { h[..b].chars().map(|c| c.len_utf16()).sum() };
+                let exp = match r.find(&h, 0, 2_000_000).0 {
+                    esref::Found::Aborted => json!("abort"),
+                    esref::Found::NoMatch => json!(null),
+                    esref::Found::Match(m) => json!({"s": to16(m.s), "e": to16(m.e), "caps": m.caps.iter().map(|c| c.map(|(a, b)| vec![to16(a), to16(b)])).collect::<Vec<_>>()}),
+                };
+                println!("{}", json!({"k": "match", "p": pu, "f": fl.text(), "h": h.encode_utf16().collect::<Vec<u16>>(), "s": 0, "exp": exp}));
             }
         }
         return;
